@@ -15,7 +15,7 @@ RULE = ('rows of InResponseTo {matching, unknown, absent} x SCD.InResponseTo {ma
         'foreign} x allow_unsolicited x conv_info x valid_destination_regex {unset, matching, non-matching} x {plain, encrypted} x binding {POST, Redirect, SOAP} x {unsigned, signed}; '
         'quick: deterministic stride sample of the product plus all single-dimension deviations from the conformant row; thorough: the whole product. '
         'generated (Hypothesis): the conformant row with 1-6 dimensions moved, over the same dimensions plus the value stored for the outstanding request {path, empty string, "0", blank} and '
-        'SP configured with / without an assertion-consumer endpoint for the delivering binding. Non-trivial = at least one dimension off its conformant value; distinct = distinct row.')
+        'SP configured with / without an assertion-consumer endpoint for the delivering binding, the entry point {parse_authn_request_response, parse_attribute_query_response} and a conformant EncryptedAssertion riding along with the plain one. Non-trivial = at least one dimension off its conformant value; distinct = distinct row.')
 ASSUMPTIONS = ['solicitation (clause 1) is judged for the browser bindings POST/Redirect only; SOAP (synchronous) rows are judged for audience and recipient only',
                'rows are unsigned with all SP signature options off, or response-signed with defaults (xmlsec1 stand-in); frozen clock',
                'a non-matching valid_destination_regex with an own-endpoint Destination is not judged (either outcome satisfies the statement)']
@@ -91,7 +91,9 @@ class Rows(object):
 
 
 EXTRA = [('came', ['/came/from/1', '', '0', ' ']),             # what the application stored for the outstanding request (any string, also a falsy one)
-         ('acs_cfg', ['all', 'none-for-binding'])]               # the SP has / has not an assertion-consumer endpoint configured for the delivering binding
+         ('acs_cfg', ['all', 'none-for-binding']),               # the SP has / has not an assertion-consumer endpoint configured for the delivering binding
+         ('entry', ['authn', 'attrq']),                          # parse_authn_request_response / parse_attribute_query_response (answer to an attribute query, SOAP)
+         ('mixed', [False, True])]                               # a conformant EncryptedAssertion rides along; the row's conditions sit in a plain Assertion next to it
 
 
 def generated_strategy():
@@ -111,7 +113,7 @@ def generated_strategy():
 def judge(row):
     """('reject', reasons) | ('accept', []) | ('unjudged', [])"""
     reasons = []
-    browser = row['binding'] in ('post', 'redirect', 'artifact')
+    browser = row['binding'] in ('post', 'redirect', 'artifact') and row.get('entry', 'authn') == 'authn'
     if browser and row.get('acs_cfg') == 'none-for-binding' and row['dest'] != 'absent':
         if not (row['regex'] == 'match' and row['dest'] in ('own', 'own-other-binding')):
             reasons.append('Destination is present but the SP has no endpoint for the binding and no pattern matches')
@@ -128,11 +130,11 @@ def judge(row):
             reasons.append('Destination is not an own endpoint for the binding and matches no pattern')
     if row['aud'] in ('other', 'me|other', 'other|me'):
         reasons.append('an audience restriction does not list the SP')
-    if row['conv'] and row['rcpt'] == 'foreign':
+    if row['conv'] and row['rcpt'] == 'foreign' and row.get('entry', 'authn') == 'authn':     # the attribute-query entry point takes no conversation info
         reasons.append('Recipient is foreign although conversation info was supplied')
     if reasons:
         return 'reject', reasons
-    ok = (row.get('acs_cfg', 'all') == 'all' and row['irt'] == 'match' and row['scd'] == 'match' and row['dest'] in ('own', 'absent') and row['aud'] in ('me', 'none', 'me+other-one', 'no-conditions')
+    ok = (row.get('acs_cfg', 'all') == 'all' and row.get('entry', 'authn') == 'authn' and not row.get('mixed') and row['irt'] == 'match' and row['scd'] == 'match' and row['dest'] in ('own', 'absent') and row['aud'] in ('me', 'none', 'me+other-one', 'no-conditions')
           and row['rcpt'] in ('endpoint', 'entity') and row['regex'] in ('unset', 'match'))
     if ok:
         return 'accept', []
@@ -141,6 +143,10 @@ def judge(row):
 
 def run(row):
     now = spside.NOW
+    if row.get('entry') == 'attrq':
+        row = dict(row, binding='soap')
+    if row.get('mixed'):
+        row = dict(row, enc=False)      # the row's own assertion stays plain, an encrypted conformant one is added
     if row['binding'] == 'soap' and row['signed']:
         # the SOAP decoder re-serialises the body (prefixes change), so third-party signed documents do not survive it;
         # that is a transport limitation outside this property: SOAP rows run unsigned
@@ -179,6 +185,14 @@ def run(row):
     else:
         a['conditions']['audiences'] = {'me': [[spside.SP]], 'none': [], 'other': [[OTHER]], 'me+other-one': [[spside.SP, OTHER]],
                                         'me|other': [[spside.SP], [OTHER]], 'other|me': [[OTHER], [spside.SP]]}[row['aud']]
+    if row.get('entry') == 'attrq':
+        a['authn'] = []
+    if row.get('mixed'):
+        r2, good = build.standard(now, acs=acs, aid='id-assertion-good')
+        enc_doc = build.render(dict(r2), [good], encrypt_for=2)
+        import re as _re
+        ea = _re.search(r'<saml:EncryptedAssertion.*?</saml:EncryptedAssertion>', enc_doc, _re.S).group(0)
+        r['extra_assertions_first'] = [ea]
     doc = build.render(r, [a], sign_response=1 if row['signed'] else None, encrypt_for=2 if row['enc'] else None)
     came = row.get('came', '/came/from/1')
     outstanding = {'id-req-1': came, 'id-req-2': '/came/from/2'}
@@ -193,7 +207,10 @@ def run(row):
             payload = build.deflate_b64(doc)
         else:
             payload = build.soap_envelope(doc)
-        resp = sp.parse_authn_request_response(payload, b, dict(outstanding), **kw)
+        if row.get('entry') == 'attrq':
+            resp = sp.parse_attribute_query_response(payload, b)
+        else:
+            resp = sp.parse_authn_request_response(payload, b, dict(outstanding), **kw)
         v = ('accept', resp) if resp is not None else ('reject', 'None', '')
     except Exception as e:
         v = ('reject', type(e).__name__, str(e)[:160])
